@@ -198,7 +198,11 @@ class LinkContainer(Container):
 
         self._backend.delete(item.id)
 
-    def append(self, item):
+    def _check_item(self, item):
+        """
+        Returns the entity that is to be linked, or raises if it cannot be
+        linked here.
+        """
         if util.is_uuid(item):
             item = self._inst_item(self._backend.get_by_id(item))
 
@@ -207,14 +211,19 @@ class LinkContainer(Container):
 
         if item not in self._itemstore:
             raise RuntimeError("This item cannot be appended here.")
+        return item
 
+    def append(self, item):
+        item = self._check_item(item)
         self._backend.create_link(item, item.id)
 
     def extend(self, items):
         if not isinstance(items, Iterable):
             raise TypeError("{} object is not iterable".format(type(items)))
+        # all or nothing: every item is checked before the first is linked
+        items = [self._check_item(item) for item in items]
         for item in items:
-            self.append(item)
+            self._backend.create_link(item, item.id)
 
     def __getitem__(self, identifier):
         if isinstance(identifier, int):
